@@ -365,7 +365,7 @@ struct Exec {
         case OP_ABORT: rc = lib([&] { return ncmpi_abort(me.ncid[op.file]); }); rc_check(op, opi, rc, exp_rc(op), op.rc_any); me.closed_ids.push_back(me.ncid[op.file]); me.ncid[op.file] = -1; drop_reqs(op.file); break;
         case OP_REDEF: rc = lib([&] { return ncmpi_redef(me.ncid[op.file]); }); rc_check(op, opi, rc, exp_rc(op), op.rc_any); break;
         case OP_ENDDEF: rc = lib([&] { return ncmpi_enddef(me.ncid[op.file]); }); rc_check(op, opi, rc, exp_rc(op), op.rc_any); break;
-        case OP_ENDDEF2: rc = lib([&] { return ncmpi__enddef(me.ncid[op.file], op.a[0], op.a[1], op.a[2], op.a[3]); }); rc_check(op, opi, rc, exp_rc(op), op.rc_any); break;
+        case OP_ENDDEF2: rc = lib([&] { return ncmpi__enddef(me.ncid[op.file], op.a[0], (op.note == "multidefine" && r == op.alt_rank) ? op.alt_val : op.a[1], op.a[2], op.a[3]); }); rc_check(op, opi, rc, exp_rc(op), op.rc_any); break;
         case OP_BEGIN_INDEP: rc = lib([&] { return ncmpi_begin_indep_data(me.ncid[op.file]); }); rc_check(op, opi, rc, exp_rc(op), op.rc_any); break;
         case OP_END_INDEP: rc = lib([&] { return ncmpi_end_indep_data(me.ncid[op.file]); }); rc_check(op, opi, rc, exp_rc(op), op.rc_any); break;
         case OP_SYNC: rc = lib([&] { return ncmpi_sync(me.ncid[op.file]); }); rc_check(op, opi, rc, exp_rc(op), op.rc_any); break;
@@ -376,11 +376,12 @@ struct Exec {
             MPI_Barrier(MPI_COMM_WORLD);
             rc = lib([&] { return ncmpi_sync(me.ncid[op.file]); }); rc_check(op, opi, rc, exp_rc(op), op.rc_any); break;
         case OP_SET_FILL: { int old; rc = lib([&] { return ncmpi_set_fill(me.ncid[op.file], op.a[0] ? NC_FILL : NC_NOFILL, &old); }); rc_check(op, opi, rc, exp_rc(op), op.rc_any); break; }
-        case OP_DEF_DIM: { int id; rc = lib([&] { return ncmpi_def_dim(me.ncid[op.file], op.name.c_str(), op.a[0] == 0 ? NC_UNLIMITED : op.a[0], &id); }); rc_check(op, opi, rc, exp_rc(op), op.rc_any); break; }
+        case OP_DEF_DIM: { int id; bool alt = op.note == "multidefine" && r == op.alt_rank; std::string nm = (alt && !op.alt_name.empty()) ? op.alt_name : op.name; long long sz = (alt && op.alt_name.empty()) ? op.alt_val : op.a[0]; rc = lib([&] { return ncmpi_def_dim(me.ncid[op.file], nm.c_str(), sz == 0 ? NC_UNLIMITED : sz, &id); }); rc_check(op, opi, rc, exp_rc(op), op.rc_any); break; }
         case OP_DEF_VAR: {
             int id; std::vector<int> dimids; int ndims_total = 0; ncmpi_inq_ndims(me.ncid[op.file], &ndims_total);
             for (auto d : op.dims) dimids.push_back(ndims_total ? (int)(((d % ndims_total) + ndims_total) % ndims_total) : 0);
-            rc = lib([&] { return ncmpi_def_var(me.ncid[op.file], op.name.c_str(), (nc_type)op.a[0], (int)dimids.size(), dimids.data(), &id); });
+            bool alt = op.note == "multidefine" && r == op.alt_rank; std::string nm = (alt && !op.alt_name.empty()) ? op.alt_name : op.name; long long ty = (alt && op.alt_name.empty()) ? op.alt_val : op.a[0];
+            rc = lib([&] { return ncmpi_def_var(me.ncid[op.file], nm.c_str(), (nc_type)ty, (int)dimids.size(), dimids.data(), &id); });
             rc_check(op, opi, rc, exp_rc(op), op.rc_any); break;
         }
         case OP_DEF_VAR_FILL: {
@@ -392,13 +393,14 @@ struct Exec {
         case OP_PUT_ATT: {
             int mt = native_memtype(op.att.type); std::vector<uint8_t> buf(op.att.v.size() * 8 + 8);
             for (size_t k = 0; k < op.att.v.size(); k++) write_mem(buf.data() + k * mt_size(mt), mt, op.att.v[k]);
-            rc = lib([&] { return api_put_att(me.ncid[op.file], op.var < 0 ? NC_GLOBAL : op.var, op.name.c_str(), op.att.type, (MPI_Offset)op.att.v.size(), buf.data(), mt); });
+            std::string anm = (op.note == "multidefine" && r == op.alt_rank) ? op.alt_name : op.name;
+            rc = lib([&] { return api_put_att(me.ncid[op.file], op.var < 0 ? NC_GLOBAL : op.var, anm.c_str(), op.att.type, (MPI_Offset)op.att.v.size(), buf.data(), mt); });
             rc_check(op, opi, rc, exp_rc(op), op.rc_any); break;
         }
         case OP_DEL_ATT: rc = lib([&] { return ncmpi_del_att(me.ncid[op.file], op.var < 0 ? NC_GLOBAL : op.var, op.name.c_str()); }); rc_check(op, opi, rc, exp_rc(op), op.rc_any); break;
         case OP_RENAME_ATT: rc = lib([&] { return ncmpi_rename_att(me.ncid[op.file], op.var < 0 ? NC_GLOBAL : op.var, op.name.c_str(), op.name2.c_str()); }); rc_check(op, opi, rc, exp_rc(op), op.rc_any); break;
-        case OP_RENAME_DIM: rc = lib([&] { return ncmpi_rename_dim(me.ncid[op.file], op.dim, op.name2.c_str()); }); rc_check(op, opi, rc, exp_rc(op), op.rc_any); break;
-        case OP_RENAME_VAR: rc = lib([&] { return ncmpi_rename_var(me.ncid[op.file], op.var, op.name2.c_str()); }); rc_check(op, opi, rc, exp_rc(op), op.rc_any); break;
+        case OP_RENAME_DIM: rc = lib([&] { return ncmpi_rename_dim(me.ncid[op.file], op.dim, ((op.note == "multidefine" && r == op.alt_rank) ? op.alt_name : op.name2).c_str()); }); rc_check(op, opi, rc, exp_rc(op), op.rc_any); break;
+        case OP_RENAME_VAR: rc = lib([&] { return ncmpi_rename_var(me.ncid[op.file], op.var, ((op.note == "multidefine" && r == op.alt_rank) ? op.alt_name : op.name2).c_str()); }); rc_check(op, opi, rc, exp_rc(op), op.rc_any); break;
         case OP_ATTACH: rc = lib([&] { return ncmpi_buffer_attach(me.ncid[op.file], op.a[0]); }); rc_check(op, opi, rc, exp_rc(op), op.rc_any); break;
         case OP_DETACH: rc = lib([&] { return ncmpi_buffer_detach(me.ncid[op.file]); }); rc_check(op, opi, rc, exp_rc(op), op.rc_any); break;
         case OP_INQ: do_inq(op, opi); break;
